@@ -173,7 +173,11 @@ func init() {
 			return mkSym(fr.i.px.tb.or(x, y), types.Bool)
 		},
 		"SetFS": func(fr *frame, a []value) value {
-			fr.i.px.userdata["fs"] = a[0]
+			if itf, ok := a[0].(iface); ok {
+				fr.i.px.userdata["fs"] = itf.v
+			} else {
+				fr.i.px.userdata["fs"] = a[0]
+			}
 			return nil
 		},
 		"Fail": func(fr *frame, a []value) value {
